@@ -32,6 +32,12 @@ Direct oracles (failing-input search):
     object and of re-fetched ones, sync and async: equal to a new Environment
     with a plain FileSystemLoader on the same files (in process, in a pristine
     process, and as computed by the model);
+  * overlapping async loads — waves of get_template_async(name, globals=Gi) +
+    render_async / from_string().render_async() tasks under asyncio.gather on a
+    COLD caching loader whose get_source_async really suspends, different
+    globals per task: each task equals the task alone on fresh objects;
+  * edits of the edited-partials stream move the file's mtime backwards as often
+    as forwards;
   * constructs outside the model (if / case / with / liquid / nested
     render-call-include-extends ...) and ~20 sources that fail to lex or parse at
     several depths, shuffled on two shared Environments: equal to a new
@@ -703,6 +709,8 @@ def _handle(req: tuple) -> Any:
         return raw_fresh(*req[1:])
     if req[0] == "trace":
         return [(s["obs"], s["trace"]) for s in run_history(req[1], trace=True, process=True)]
+    if req[0] == "concfresh":
+        return conc_fresh(*req[1:])
     if req[0] == "fsrender":
         return fs_fresh_render(*req[1:])
     raise ValueError(req[0])
@@ -1364,7 +1372,7 @@ def _write_tree(root: str, files: dict[str, str], stamp: int) -> None:
         p = os.path.join(root, name)
         with open(p, "w") as f:
             f.write(src)
-        os.utime(p, (1_000_000 + stamp, 1_000_000 + stamp))
+        os.utime(p, (1_000_000_000 + stamp, 1_000_000_000 + stamp))
 
 
 def _call(loop: asyncio.AbstractEventLoop, sync_fn: Any, async_fn: Any, is_async: bool) -> tuple:
@@ -1425,10 +1433,14 @@ def fs_scenario(r: Any) -> dict[str, Any]:
     script.append(("render", 0, data, r.random() < 0.5))
     handles = 1
     for _ in range(r.randint(2, 4)):
-        target = r.choice(deps[top] + ([top] if r.random() < 0.15 else []))
+        target = top if r.random() < 0.2 else r.choice(deps[top])
         roll = r.random()
+        # the new file's mtime: earlier than the replaced one as often as later (restore from a
+        # backup, cp -p, rsync -t), never one this file has had before
+        back = r.random() < 0.5
+        jump = (-1 if back else 1) * r.choice([1, 1, 2, 7, 3600, 86400])
         if roll < 0.12:
-            script.append(("modify", target, break_prog(r, body([]))))
+            script.append(("modify", target, break_prog(r, body([])), jump))
         elif roll < 0.2:
             script.append(("delete", target))
         else:
@@ -1437,7 +1449,7 @@ def fs_scenario(r: Any) -> dict[str, Any]:
             ver[0] += 1
             if new == files[target]:
                 new = [("T", f"<{ver[0]}>")] + new
-            script.append(("modify", target, new))
+            script.append(("modify", target, new, jump))
         if r.random() < 0.2:
             script.append(("tick",))
         # the same Template object again, sync and async, and a re-fetched one
@@ -1461,8 +1473,10 @@ def run_fs_scenario(sc: dict[str, Any]) -> list[dict[str, Any]]:
     try:
         CLOCK.k = 0
         current: dict[str, list[tuple]] = {n: list(p) for n, p in sc["files"].items()}
-        stamp = 1
-        _write_tree(root, {n: src_of(p) for n, p in current.items()}, stamp)
+        mtime: dict[str, int] = {n: 0 for n in current}
+        used: dict[str, set[int]] = {n: {0} for n in current}
+        n_back = 0
+        _write_tree(root, {n: src_of(p) for n, p in current.items()}, 0)
         env = liquid2.Environment(loader=liquid2.CachingFileSystemLoader(root, auto_reload=True))
         handles: list[tuple[str, Any, list[tuple] | None]] = []
         out = []
@@ -1476,9 +1490,14 @@ def run_fs_scenario(sc: dict[str, Any]) -> list[dict[str, Any]]:
                     t = exc_obs(e)
                 handles.append((name, t, current.get(name)))
             elif k == "modify":
-                stamp += 1
+                new = mtime.get(st[1], 0) + st[3]
+                while new in used.setdefault(st[1], set()):
+                    new += -1 if st[3] < 0 else 1
+                used[st[1]].add(new)
+                n_back += new < mtime.get(st[1], 0)
+                mtime[st[1]] = new
                 current[st[1]] = list(st[2])
-                _write_tree(root, {st[1]: src_of(st[2])}, stamp)
+                _write_tree(root, {st[1]: src_of(st[2])}, new)
             elif k == "delete":
                 current.pop(st[1], None)
                 try:
@@ -1500,7 +1519,7 @@ def run_fs_scenario(sc: dict[str, Any]) -> list[dict[str, Any]]:
                     d = py_map(st[2])
                     obs = _call(loop, lambda: t.render(**d), lambda: t.render_async(**d), st[3])
                 out.append({"obs": obs, "name": name, "files": inputs, "data": st[2], "async": st[3], "tick": CLOCK.k,
-                            "fetch_failed": isinstance(t, tuple)})
+                            "fetch_failed": isinstance(t, tuple), "backward_edits_so_far": n_back})
         return out
     finally:
         loop.close()
@@ -1517,6 +1536,118 @@ def fs_case(step: dict[str, Any]) -> tuple[list[tuple], list[dict[str, Any]]]:
         exp = [("unit",)] * (1 + step["tick"]) + [obs, ("bad",)]
     else:
         exp = [("unit",)] * (1 + step["tick"]) + [("own", 0), obs]
+    return ops, [{"obs": o, "snap": [[], []]} for o in exp]
+
+
+# ---------------------------------------------------------------- overlapping async loads on a cold cache
+
+
+def _suspending(base: type) -> type:
+    """A loader whose get_source_async really suspends (a few trips through the
+    event loop, per template name), so that overlapping loads interleave."""
+
+    class S(base):  # type: ignore[misc,valid-type]
+        delays: dict[str, int] = {}
+
+        async def get_source_async(self, env, template_name, *, context=None, **kwargs):  # type: ignore[no-untyped-def]
+            for _ in range(self.delays.get(template_name, 1)):
+                await asyncio.sleep(0)
+            src = await super().get_source_async(env, template_name, context=context, **kwargs)
+            for _ in range(self.delays.get("after:" + template_name, 0)):
+                await asyncio.sleep(0)
+            return src
+
+    S.__name__ = "Suspending" + base.__name__
+    return S
+
+
+def conc_scenario(r: Any) -> dict[str, Any]:
+    """Waves of overlapping tasks on one Environment with a caching loader that
+    starts COLD: get_template_async(name, globals=Gi) + render_async, and
+    from_string(...).render_async() of templates that include / render / extend
+    the same partials; different globals per task."""
+    store = [(n, [("T", n + ":"), ("E", "g"), ("T", ";")] + p) for n, p in gen_store(r)]
+    names = [n for n, _ in store]
+    waves = []
+    for w in range(r.randint(1, 3)):
+        tasks = []
+        same = r.choice(names) if r.random() < 0.7 else None
+        for i in range(r.randint(2, 4)):
+            g = [("g", ("s", f"G{w}{i}"))] if r.random() < 0.9 else []
+            data = [("x", ("s", f"d{i}")), ("arr", ("l", ["a", "b", "c"]))]
+            if r.random() < 0.75:
+                tasks.append(("gt", same or r.choice(names), g, data))
+            else:
+                part = same or r.choice(names)
+                prog = [("E", "g"), r.choice([("Inc", part), ("Ren", part)]), ("I", "c")] + gen_prog(r, 0, names, 0, 2)
+                tasks.append(("fs", prog, g, data))
+        waves.append(tasks)
+    delays = {n: r.randint(1, 3) for n in names}
+    delays.update({"after:" + n: r.randint(0, 2) for n in names})
+    return {"store": store, "waves": waves, "delays": delays, "fsloader": r.random() < 0.35,
+            "auto": r.random() < 0.3, "globals": gen_globs(r) if r.random() < 0.3 else []}
+
+
+def run_conc_scenario(sc: dict[str, Any]) -> list[list[tuple]]:
+    import liquid2
+
+    root = _scratch() if sc["fsloader"] else None
+    loop = asyncio.new_event_loop()
+    try:
+        CLOCK.k = 0
+        srcs = {n: src_of(p) for n, p in sc["store"]}
+        if root is not None:
+            _write_tree(root, srcs, 0)
+            loader = _suspending(liquid2.CachingFileSystemLoader)(root, auto_reload=True)
+        else:
+            loader = _suspending(liquid2.CachingDictLoader)(srcs)
+        loader.delays = dict(sc["delays"])
+        env = liquid2.Environment(loader=loader, auto_escape=sc["auto"], globals=py_map(sc["globals"]))
+
+        async def one(task: tuple) -> tuple:
+            try:
+                if task[0] == "gt":
+                    t = await env.get_template_async(task[1], globals=py_map(task[2]) or None)
+                else:
+                    t = env.from_string(src_of(task[1]), globals=py_map(task[2]) or None)
+                return ("text", await t.render_async(**py_map(task[3])))
+            except Exception as e:  # noqa: BLE001
+                return exc_obs(e)
+
+        async def wave(tasks: list[tuple]) -> list[tuple]:
+            return list(await asyncio.gather(*[one(t) for t in tasks]))
+
+        return [loop.run_until_complete(wave(tasks)) for tasks in sc["waves"]]
+    finally:
+        loop.close()
+        if root is not None:
+            shutil.rmtree(root, ignore_errors=True)
+
+
+def conc_fresh(store: list, auto: bool, globs: list, task: tuple) -> tuple:
+    """The task alone on freshly built objects (plain DictLoader, sync)."""
+    import liquid2
+
+    CLOCK.k = 0
+    env = liquid2.Environment(loader=liquid2.DictLoader({n: src_of(p) for n, p in store}), auto_escape=auto,
+                              globals=py_map(globs))
+    try:
+        if task[0] == "gt":
+            t = env.get_template(task[1], globals=py_map(task[2]) or None)
+        else:
+            t = env.from_string(src_of(task[1]), globals=py_map(task[2]) or None)
+        return ("text", t.render(**py_map(task[3])))
+    except Exception as e:  # noqa: BLE001
+        return exc_obs(e)
+
+
+def conc_case(sc: dict[str, Any], task: tuple, obs: tuple) -> tuple[list[tuple], list[dict[str, Any]]]:
+    """The model's answer for the task on fresh objects."""
+    ops: list[tuple] = [("env", sc["auto"], False, [], sc["store"], sc["globals"])]
+    ops.append(("gt", 1, task[1], task[2], False) if task[0] == "gt" else ("fs", 1, task[1], task[2]))
+    ops.append(("r", ("own", 0), task[3], None, None, False))
+    created = obs[0] == "text" or run_history(ops)[1]["obs"][0] == "own"
+    exp = [("unit",), ("own", 0), obs] if created else [("unit",), obs, ("bad",)]
     return ops, [{"obs": o, "snap": [[], []]} for o in exp]
 
 
@@ -1789,12 +1920,13 @@ def _main(chk: C.Check, pristine: Pristine) -> None:
                   "replay": {"history": STALE_PARSE, "implementation": [s["obs"] for s in steps]}})
 
     # partials edited on disk behind a CachingFileSystemLoader(auto_reload=True)
-    n_fs = n_fs_edits_seen = 0
+    n_fs = n_fs_edits_seen = n_fs_back = 0
     for _ in range(400 if thorough else 30):
         sc = fs_scenario(r)
         last_by_name: dict[str, tuple] = {}
         for st in run_fs_scenario(sc):
             n_fs += 1
+            n_fs_back += st["backward_edits_so_far"] > 0
             srcs = {k: src_of(p) for k, p in st["files"].items()}
             fr = fs_fresh_render(srcs, st["name"], st["data"], st["async"], st["tick"])
             pr = pristine.call(("fsrender", srcs, st["name"], st["data"], st["async"], st["tick"]))
@@ -1813,12 +1945,43 @@ def _main(chk: C.Check, pristine: Pristine) -> None:
             case, model = c_case(ops_m, exp_m)
             items.append({"case": case, "model": model,
                           "replay": {"fs_render": st["name"], "files": srcs, "implementation": st["obs"]}})
+    # overlapping async loads on a cold caching loader, different globals per task
+    n_conc = n_conc_collide = 0
+    for _ in range(500 if thorough else 45):
+        sc = conc_scenario(r)
+        res = run_conc_scenario(sc)
+        for wi, (tasks, outs) in enumerate(zip(sc["waves"], res)):
+            gts = [t[1] for t in tasks if t[0] == "gt"]
+            n_conc_collide += wi == 0 and len(gts) != len(set(gts))
+            for ti, (task, obs) in enumerate(zip(tasks, outs)):
+                n_conc += 1
+                fr = conc_fresh(sc["store"], sc["auto"], sc["globals"], task)
+                pr = pristine.call(("concfresh", sc["store"], sc["auto"], sc["globals"], task))
+                n_pristine += 1
+                if fr != obs or pr != obs:
+                    chk.finding("concurrent-load:" + ("cold" if wi == 0 else "warm") + f":{obs[0]}-vs-{fr[0]}",
+                                f"task {ti} of wave {wi} ({task[0]} {task[1] if task[0] == 'gt' else src_of(task[1])!r}, globals "
+                                f"{task[2]}) run overlapping with {len(tasks) - 1} other task(s) on a shared caching loader gives {obs}; "
+                                f"alone on freshly built objects it gives {fr} (pristine process: {pr})",
+                                {"wave": wi, "task": ti, "tasks": tasks, "outcomes": outs, "fresh": fr,
+                                 "loader": "CachingFileSystemLoader" if sc["fsloader"] else "CachingDictLoader",
+                                 "delays": sc["delays"], "templates": {n: src_of(p) for n, p in sc["store"]},
+                                 "environment_globals": sc["globals"], "auto_escape": sc["auto"],
+                                 "how": "harness/c09.py run_conc_scenario / conc_fresh"})
+                ops_m, exp_m = conc_case(sc, task, obs)
+                case, model = c_case(ops_m, exp_m)
+                items.append({"case": case, "model": model,
+                              "replay": {"concurrent_task": task, "implementation": obs,
+                                         "templates": {n: src_of(p) for n, p in sc["store"]}}})
+    dist["concurrent-tasks"] = n_conc
+    dist["concurrent-cold-waves-loading-one-name-twice"] = n_conc_collide
     n_raw, n_raw_fail = raw_stream(chk, pristine, r, 8 if thorough else 3)
     n_pristine += n_raw
     dist["raw-sources-run"] = n_raw
     dist["raw-from_string-failures"] = n_raw_fail
     dist["fs-renders"] = n_fs
     dist["fs-renders-showing-an-edit"] = n_fs_edits_seen
+    dist["fs-renders-after-a-backward-mtime-edit"] = n_fs_back
     dist["steps-traced"] = n_traced
     dist["pristine-process-evaluations"] = n_pristine
 
